@@ -3,9 +3,12 @@
 package fault
 
 import (
+	"context"
 	"errors"
 	"fmt"
 	"io"
+	"io/fs"
+	"os"
 )
 
 // ErrInjected is the non-EOF error delivered by failing readers and writers.
@@ -19,7 +22,11 @@ var (
 	// ErrTemporary is of the class net timeouts and EAGAIN belong to: it has Temporary() and
 	// Timeout() methods that return true. It is still a failure of the stream.
 	ErrTemporary error = temporaryError{}
-	ErrKinds           = []error{ErrInjected, ErrWrapsEOF, io.ErrUnexpectedEOF, ErrTemporary}
+	// ErrClosedFile is what (*os.File).Read returns once the file was closed underneath the
+	// reader; io.ErrClosedPipe and context.Canceled are what pipes and cancelled transfers
+	// report. All of them are failures of the stream: the data stops at an arbitrary byte.
+	ErrClosedFile error = &fs.PathError{Op: "read", Path: "reads.txt", Err: os.ErrClosed}
+	ErrKinds            = []error{ErrInjected, ErrWrapsEOF, io.ErrUnexpectedEOF, ErrTemporary, io.ErrClosedPipe, ErrClosedFile, context.Canceled}
 )
 
 type temporaryError struct{}
@@ -130,10 +137,13 @@ func (f *FailAfter) Read(p []byte) (int, error) {
 }
 
 // LimitedWriter accepts Limit bytes in total and then fails. With Short the failing call
-// reports the bytes it did accept; otherwise it reports 0.
+// reports the bytes it did accept; with Full it reports len(p) together with the error (as
+// io.Writer permits: a writer that counts the bytes before it commits them); otherwise it
+// reports 0.
 type LimitedWriter struct {
 	Limit   int
 	Short   bool
+	Full    bool
 	Written int
 	Failed  bool
 }
@@ -148,6 +158,10 @@ func (w *LimitedWriter) Write(p []byte) (int, error) {
 		return len(p), nil
 	}
 	w.Failed = true
+	if w.Full {
+		w.Written += room
+		return len(p), ErrInjected
+	}
 	if w.Short {
 		w.Written += room
 		return room, ErrInjected
